@@ -57,9 +57,18 @@ func (s *storageAdapter) GetPipeline(ctx context.Context, id string) (*ledger.Pi
 }
 
 func (s *storageAdapter) OpenLedger(ctx context.Context, name string) (LogFetcher, *ledger.Ledger, error) {
-	store, l, err := s.storageDriver.OpenLedger(ctx, name)
+	_, l, err := s.storageDriver.OpenLedger(ctx, name)
 
 	return LogFetcherFn(func(ctx context.Context, query common.PaginatedQuery[any]) (*paginate.Cursor[ledger.Log], error) {
+		// A pipeline keeps its fetcher for as long as it runs, and the "alone in its bucket"
+		// hint of a store (which lets it drop the `ledger = ?` predicate) is only refreshed when
+		// a ledger is opened or created BY THIS PROCESS: a ledger created in the bucket by
+		// another process (the API next to a worker) would leave a long-lived store reading
+		// the logs of the whole bucket. Open the ledger for each fetch, as an API request does.
+		store, _, err := s.storageDriver.OpenLedger(ctx, name)
+		if err != nil {
+			return nil, err
+		}
 		return store.Logs().Paginate(ctx, query)
 	}), l, err
 }
